@@ -26,7 +26,7 @@ IntOf(c) ==
     [] c = "-64" -> INat(-64) [] c = "65" -> INat(65) [] c = "128" -> INat(128) [] c = "1000" -> INat(1000)
     [] c = "w" -> W64 [] c = "big" -> BigU [] c = "-big" -> INeg(BigU)
     [] c = "u32max" -> U32MAX [] c = "huge" -> USIZE_MAX [] c = "imax" -> ISIZE_MAX [] c = "imin" -> ISIZE_MIN
-    [] c = "2^62" -> P2_62 [] c = "-2^62" -> INeg(P2_62) [] c = "2^70" -> P2_70 [] c = "-2^70" -> INeg(P2_70)
+    [] c = "2^24" -> I(0, <<0, 0, 0, 1>>) [] c = "2^62" -> P2_62 [] c = "-2^62" -> INeg(P2_62) [] c = "2^70" -> P2_70 [] c = "-2^70" -> INeg(P2_70)
 
 UnsignedPrims == <<"u8", "u16", "u32", "u64", "u128", "usize">>
 SignedPrims == <<"i8", "i16", "i32", "i64", "i128", "isize">>
@@ -86,7 +86,7 @@ Cl(axis, tier) ==
     [] axis = "I" -> <<"0", "1", "-1", "2", "7", "-7", "-8", "big", "-big">>
     [] axis = "Nroot" -> <<"0", "1", "2", "3", "64", "huge">>
     [] axis = "Npow" -> <<"0", "1", "2", "3", "64", "huge">>
-    [] axis = "Nshift" -> <<"0", "1", "63", "64", "65", "128", "u32max", "huge">>
+    [] axis = "Nshift" -> <<"0", "1", "63", "64", "65", "128", "2^24", "huge">>
     [] axis = "Nchunk" -> <<"0", "1", "8", "63", "64", "128", "huge">>
     [] axis = "Radix" -> <<"0", "1", "2", "10", "16", "36", "37", "u32max">>
     [] axis = "Nprec" -> <<"0", "1", "2", "20", "1000">>
@@ -100,9 +100,9 @@ Cl(axis, tier) ==
     [] axis \in {"Fb2", "Fb10"} -> IF tier = "quick" THEN FValsSecond ELSE FValsPlain
     [] axis \in {"Fhb2", "Fhb10"} -> IF tier = "quick" THEN FValsSecond \o <<"hugeexp">> ELSE FValsHuge
     \* logarithms: every non-positive argument of the unrepaired release build hangs for the whole budget (F25),
-    \* the quick tier keeps two of them per base
+    \* the quick tier keeps a single one (Extras) besides ln(0) and ln_1p(-1), which return
     [] axis \in {"Fl2", "Fl10"} -> IF tier = "quick"
-          THEN FClassesOf(<<"0", "1", "-1", "2", "half", "frac", "big", "tiny", "inf", "-inf", "hugeexp">>) ELSE FClassesOf(FValsHuge)
+          THEN FClassesOf(<<"0", "1", "2", "half", "frac", "big", "tiny", "inf", "-inf", "hugeexp">>) ELSE FClassesOf(FValsHuge)
     \* denominator limits of next_up / next_down / nearest: the walk takes about `limit` steps (finding C16.N4)
     [] axis = "Ulim" -> IF tier = "quick" THEN <<"0", "1", "2", "7", "1000">> ELSE <<"0", "1", "2", "7", "1000", "w">>
     [] axis \in {"Fs10"} -> FClassesOf(<<"0", "1", "-1", "2", "inf", "-inf">>)
@@ -247,7 +247,8 @@ RatOps ==
 Inventory == IntOps \o FloatOps(2) \o FloatOps(10) \o RatOps
 
 \* cells generated in every tier besides the axis products (witnesses of known findings kept out of the quick axes)
-Extras == { <<"R.next_up", <<"1/2", "w">> >>, <<"R.nearest", <<"tiny", "w">> >> }
+Extras == { <<"R.next_up", <<"1/2", "w">> >>, <<"R.nearest", <<"tiny", "w">> >>, <<"F2.ln", <<"-1@p20">> >>,
+            <<"F10.ln_1p", <<"-1@p20">> >>, <<"F2.ln_1p", <<"-1@p1">> >> }
 ExtraTuples(op) == {x[2] : x \in {y \in Extras : y[1] = op}}
 
 \* ------------------------------------------------------------------ cells
